@@ -33,18 +33,20 @@ Next == Progress \/ CrashA
 Spec == Init /\ [][Next]_vars
 FairSpec == Spec /\ WF_vars(Progress)
 
-O(x) == [db |-> x.db, sent |-> x.sent]
+O(x) == [db |-> x.db, sent |-> x.sent, queued |-> x.queued]
 
 Safety ==
     /\ C08_Once(O(s)) /\ C08_OnePoly(O(s)) /\ C08_Consistent(O(s)) /\ C08_RepeatSeen(O(s))
-    /\ s.pc = "done" => (s.db.outbox = <<>> /\ s.db.res = "full")
+    /\ C08_Loadable(O(s))
+    /\ s.pc = "done" => (s.db.outbox = <<>> /\ s.db.res = "full" /\ C08_Delivered(O(s)))
 
 (* "strictly speaking everything is stored in the database, what we have here is a cache": outside
    a transaction the cached object is the stored one *)
 MemMatchesDb == (s.mem.alive /\ s.mem.synced /\ ~s.tx.on) => (s.mem.has = s.db.pure /\ (s.mem.has => s.mem.rec = s.db.rec))
 
 (* in the order they were queued: first occurrences are checkin, commit, eval, acc, apol, result *)
-Rank(k) == CASE k = "checkin" -> 1 [] k = "commit" -> 2 [] k = "eval" -> 3 [] k = "acc" -> 4 [] k = "apol" -> 5 [] k = "result" -> 6
+Rank(k) == CASE k = "checkin" -> 1 [] k = "commit" -> 2 [] k = "eval" -> 3 [] k = "old" -> 4 [] k = "eval2" -> 5
+                [] k = "acc" -> 6 [] k = "apol" -> 7 [] k = "result" -> 8
 InOrder == LET d == Dedup(s.sent, <<>>) IN \A i, j \in DOMAIN d : i < j => Rank(d[i].k) < Rank(d[j].k)
 
 (* every queued message is eventually delivered; the run completes *)
@@ -54,6 +56,6 @@ Drains == [](s.db.outbox # <<>> => <>(s.db.outbox = <<>>))
 (* listed before Safety in the cfg: prints the crash points of a state that violates Safety *)
 EmitBad == Safety \/ PrintT(<<"BAD", ToJson([cr |-> cr])>>)
 EmitDone == (~Emit) \/ s.pc # "done" \/ PrintT(<<"B", ToJson([cr |-> cr])>>)
-ASSUME PrintT(<<"CONST", ToJson([others |-> Others, phaseLen |-> PhaseLen, dealBlock |-> DealBlock, accBlock |-> AccBlock, syncEvery |-> SyncEvery, syncOff |-> SyncOff, init |-> InitState])>>)
+ASSUME PrintT(<<"CONST", ToJson([others |-> Others, phaseLen |-> PhaseLen, dealBlock |-> DealBlock, accBlock |-> AccBlock, lateCheckin |-> LateCheckin, overlap |-> Overlap, syncEvery |-> SyncEvery, syncOff |-> SyncOff, init |-> InitState])>>)
 
 =============================================================================
